@@ -186,7 +186,7 @@ def run(ctx):
     common.quiet_logging()
     rng = ctx.rng
     combos = [(0, 0), (0, 1), (1, 0), (1, 1), (2, 0), (2, 1)]
-    for it in range(ctx.n(800, 16000)):
+    for it in range(ctx.n(800, 5000)):
         n = rng.randint(3, 12) if it % 4 else rng.randint(13, 40)
         frames = make_frames(rng, n)
         subsets = [[]]
